@@ -188,6 +188,7 @@ class C20Reports(Monitor):
             ("active_demes", lambda: tree.active_demes),
             ("n_evaluations", lambda: tree.n_evaluations),
         ]
+        acc += [("levels", lambda: tree.levels), ("leaves", lambda: tree.leaves), ("root", lambda: tree.root), ("height", lambda: tree.height), ("active_non_leaves", lambda: tree.active_non_leaves)]
         if tree.leaves:
             acc.append(("best_leaf_individual", lambda: tree.best_leaf_individual))
         for d in self.all_demes(tree):
@@ -198,6 +199,12 @@ class C20Reports(Monitor):
                 (f"deme.best_fitness_by_metaepoch", lambda d=d: d.best_fitness_by_metaepoch),
                 (f"deme.history", lambda d=d: d.history),
                 (f"deme.n_evaluations", lambda d=d: d.n_evaluations),
+                (f"deme.current_population", lambda d=d: d.current_population),
+                (f"deme.all_individuals", lambda d=d: d.all_individuals),
+                (f"deme.children", lambda d=d: d.children),
+                (f"deme.mean", lambda d=d: d.mean),
+                (f"deme.metaepoch_count", lambda d=d: (d.metaepoch_count, d.is_active, d.started_at, d.level, d.id, d.name)),
+                (f"deme.str", lambda d=d: str(d) if d.current_population else None),
             ]
         return acc
 
@@ -209,7 +216,7 @@ class C20Reports(Monitor):
             self.rng = random.Random(ctx.desc.get("np_seed", 0))
         acc = self._accessors(tree)
         self.rng.shuffle(acc)
-        for name, fn in acc[:40]:
+        for name, fn in acc[:60]:
             n0 = len(ctx.log)
             dg0 = raw_digest(tree)
             r0 = rng_fingerprint()
